@@ -271,6 +271,39 @@ func main() {
 		fmt.Printf("vgen: %d overlay entries (race mode)\n", len(repl))
 		return
 	}
+	// internal/log: log.Fatal must not take the explorer down with os.Exit
+	{
+		f := filepath.Join(*repo, "internal/log/log.go")
+		fset := token.NewFileSet()
+		af, err := parser.ParseFile(fset, f, nil, parser.ParseComments)
+		if err != nil {
+			die(2, "parse %s: %v", f, err)
+		}
+		n := 0
+		ast.Inspect(af, func(nd ast.Node) bool {
+			if c, ok := nd.(*ast.CallExpr); ok {
+				if se, ok := c.Fun.(*ast.SelectorExpr); ok {
+					if id, ok := se.X.(*ast.Ident); ok && id.Name == "os" && se.Sel.Name == "Exit" {
+						c.Fun = sel("vsched", "ProcessExit")
+						n++
+					}
+				}
+			}
+			return true
+		})
+		if n > 0 {
+			addImport(af, shimBase+"vsched", "vsched")
+			odir := filepath.Join(*out, "internal_log")
+			os.MkdirAll(odir, 0755)
+			o := filepath.Join(odir, "log.go")
+			w, _ := os.Create(o)
+			if err := format.Node(w, fset, af); err != nil {
+				die(2, "format %s: %v", f, err)
+			}
+			w.Close()
+			repl[f] = o
+		}
+	}
 	rewriteDir("internal/server", nil, false)
 	rewriteDir("internal/endpoint", map[string]bool{"endpoint.go": true}, true)
 	if !captured {
